@@ -484,11 +484,13 @@ class Exec:
         self.root1_gone = False
         self.inbox_lost: list = []
         self.exc = None
+        self.base = ''
 
 
 def execute(store: Store, layout: str, variant: str, slot: str, name: bytes) -> Exec:
     ex = Exec()
     base, w = store.world(layout, variant)
+    ex.base = base
     key = (layout, variant)
     g = store.guard
     cname = f's{len(w.conns)}'
@@ -564,3 +566,509 @@ def execute(store: Store, layout: str, variant: str, slot: str, name: bytes) -> 
     if diff or ex.exc:
         store.discard(layout, variant)
     return ex
+
+
+# --------------------------------------------------------------------------
+# concretisation of the abstract names (harness side: no semantics here)
+
+CONC = {'a': b'a', 'DOT': b'.', 'SEP': b'/', 'U': b'&AOk-', 'NUL': b'\x00'}
+SHOW = {'a': 'a', 'DOT': '.', 'SEP': '/', 'U': 'U', 'NUL': '\\0'}
+PATH_SLOTS = ('SELECT', 'EXAMINE', 'CREATE', 'DELETE', 'RENAMEfrom', 'RENAMEto',
+              'STATUS', 'APPEND', 'COPY', 'MOVE')
+
+
+def show(absname) -> str:
+    return ''.join(SHOW[str(x)] for x in absname)
+
+
+def concretise(absname, layout: str, full: bool) -> list:
+    """[(variant, bytes)].  'exist': every letter is 'a' (user1 and user2 both
+    hold a mailbox 'a'); 'fresh': 'b' (no such mailbox); 'utf8': the non-ASCII
+    character as raw UTF-8 instead of modified UTF-7; 'long': the first letter
+    300 times; 'user2@i': the i-th component, if made of letters only, spelled
+    'user2' (the other user's directory name)."""
+    syms = [str(x) for x in absname]
+    out = [('exist', b''.join(CONC[s] for s in syms))]
+    if not full:
+        return out
+    if 'a' in syms:
+        out.append(('fresh', b''.join(b'b' if s == 'a' else CONC[s] for s in syms)))
+        i = syms.index('a')
+        out.append(('long', b''.join((b'a' * 300 if j == i else CONC[s])
+                                     for j, s in enumerate(syms))))
+    if 'U' in syms:
+        out.append(('utf8', b''.join(b'\xc3\xa9' if s == 'U' else CONC[s] for s in syms)))
+    if layout == 'fs' and 'a' in syms:
+        comps: list = [[]]
+        for s in syms:
+            if s == 'SEP':
+                comps.append([])
+            else:
+                comps[-1].append(s)
+        if any(c == ['DOT', 'DOT'] for c in comps):
+            for i, c in enumerate(comps):
+                if c and all(s == 'a' for s in c):
+                    parts = [b'user2' if j == i else b''.join(CONC[s] for s in cc)
+                             for j, cc in enumerate(comps)]
+                    out.append((f'user2@{i}', b'/'.join(parts)))
+    return out
+
+
+# --------------------------------------------------------------------------
+# judging one execution against the state TLC computed for its abstract name
+
+
+def abstract_zone(store: Store, base: str, resolved: str, z: str) -> str:
+    """fine harness zone -> zone vocabulary of WirePath.tla"""
+    if z in ('root', 'in', 'base', 'outside'):
+        return z
+    depth = resolved[len(base) + 1:].count('/') + 1
+    return 'sibling' if depth == 1 else 'siblingIn'
+
+
+def judge(store: Store, base: str, ex: Exec, slot: str, st: dict):
+    """-> (escapes, beyond): escapes = list of (abstract zone, description) of
+    everything that contradicts the property; beyond = those the model state
+    `st` of this name does not allow for (zone not in st.allowed)."""
+    esc: dict = {}
+    for phase, fn, kind, raw, r, z in ex.touch:
+        if phase == 'login' or z in ('in', 'tmp', 'nul'):
+            continue
+        if z == 'root':
+            if kind != FsGuard.DESTROY:
+                continue
+            az = 'root'
+            what = f'{fn}({raw.replace(base, "<base>")}) acts on user1\'s root itself'
+        else:
+            az = abstract_zone(store, base, r, z)
+            what = f'{fn}({raw.replace(base, "<base>")}) [{kind}] -> {z}'
+        esc.setdefault((az, z, fn, kind), what)
+    for k, w in ex.other_diff:
+        az = 'sibling' if k == 'user2' else 'siblingIn'
+        esc.setdefault((az, 'other-changed', w, ''), f'user2\'s store changed: {k} {w}')
+    for k, w in ex.cred_diff:
+        esc.setdefault(('sibling', 'cred-changed', w, ''), f'credential file {k} {w}')
+    for k, w in ex.base_diff:
+        az = 'sibling' if '/' not in k else 'siblingIn'
+        esc.setdefault((az, 'base-changed', w, ''), f'base directory entry {k} {w}')
+    if ex.root1_gone:
+        esc.setdefault(('root', 'root-removed', '', ''), 'user1\'s root directory removed')
+    if ex.inbox_lost:
+        esc.setdefault(('root', 'inbox-lost', '', ''),
+                       f'{slot} removed INBOX content of user1: {ex.inbox_lost[0][0]}')
+    if ex.refused:
+        esc.setdefault(('outside', 'refused', '', ''),
+                       f'write outside the scratch tree attempted (refused by the guard): {ex.refused[0]}')
+    allowed = {str(z) for z in st['allowed']} if slot in {str(s) for s in st['bad']} else set()
+    escapes = [(k[0], v) for k, v in esc.items()]
+    beyond = [(az, v) for az, v in escapes if az not in allowed]
+    return escapes, beyond
+
+
+def signature(layout: str, slot: str, st: dict, beyond: list) -> str:
+    lay = 'pp' if layout == '++' else layout
+    dev = str(st['dev']) if slot in {str(s) for s in st['bad']} else 'ModelSaysConfined'
+    sig = f'{lay}:{slot}:{dev}'
+    if beyond:
+        sig += '!' + '+'.join(sorted({az for az, _ in beyond}))
+    return sig
+
+
+# --------------------------------------------------------------------------
+# dict backend: user1 sends the names, user2's dump must not change
+
+DUMP = (b'LIST "" *', b'LSUB "" *',
+        b'STATUS INBOX (MESSAGES UIDNEXT UIDVALIDITY UNSEEN)',
+        b'STATUS a (MESSAGES UIDNEXT UIDVALIDITY UNSEEN)',
+        b'EXAMINE INBOX', b'FETCH 1:* (UID FLAGS BODY.PEEK[])',
+        b'EXAMINE a', b'FETCH 1:* (UID FLAGS BODY.PEEK[])')
+
+
+class DictWorld:
+
+    def __init__(self):
+        self.w = World('dict', users=USERS)
+        w = self.w
+        for u in USERS:
+            w.connect(u)
+            Store._ok(w.login(u, u))
+            Store._ok(w.cmd(u, b'APPEND INBOX ' + lit(MSG[u])))
+            Store._ok(w.cmd(u, b'CREATE a'))
+            Store._ok(w.cmd(u, b'APPEND a ' + lit(MSG[u])))
+            Store._ok(w.cmd(u, b'SUBSCRIBE a'))
+        self.n = 0
+        self.baseline = self.dump()
+
+    def dump(self) -> list:
+        out = []
+        for line in DUMP:
+            out.append(self.w.cmd('user2', line, tag=b'D'))
+        return out
+
+    def run_slot(self, slot: str, name: bytes):
+        w = self.w
+        c = w.conns.get('user1')
+        if c is None or c.done:
+            self.n += 1
+            w.conns.pop('user1', None)
+            w.connect('user1')
+            w.login('user1', 'user1')
+        pre, line, _post = slot_command(slot, name)
+        if pre:
+            w.cmd('user1', b'APPEND INBOX ' + lit(MSG['user1']))
+        for p in pre:
+            w.cmd('user1', p)
+        resp = w.cmd('user1', line)
+        return tagged(resp), resp
+
+    def close(self) -> None:
+        self.w.close()
+
+
+def dict_campaign(run: Run, states: list, quick: bool) -> None:
+    seen = set()
+    n_exec = 0
+    t0 = time.time()
+    for st in states:
+        key = tuple(str(x) for x in st['name'])
+        if key in seen:
+            continue
+        seen.add(key)
+        for variant, name in concretise(st['name'], 'dict', full=not quick)[:3]:
+            dw = DictWorld()
+            try:
+                for slot in SLOTS:
+                    old = signal.signal(signal.SIGALRM, _on_alarm)
+                    signal.setitimer(signal.ITIMER_REAL, WATCHDOG_S)
+                    try:
+                        cond, resp = dw.run_slot(slot, name)
+                        after = dw.dump()
+                    except Hang:
+                        run.notes.setdefault('hangs', []).append(
+                            {'backend': 'dict', 'slot': slot, 'name': name.hex()})
+                        break
+                    finally:
+                        signal.setitimer(signal.ITIMER_REAL, 0)
+                        signal.signal(signal.SIGALRM, old)
+                    n_exec += 1
+                    changed = [DUMP[i].decode() for i in range(len(DUMP))
+                               if after[i] != dw.baseline[i]]
+                    shared = dw.w.mailbox_set('user2') is dw.w.mailbox_set('user1')
+                    run.count_exec(('dict', slot, key, variant),
+                                   nontrivial=cond[0] in ('OK', 'NO'))
+                    if changed or shared:
+                        run.violation(
+                            f'dict backend: after user1 sent {slot} with name {name!r} '
+                            f'({cond[0]}), user2 observes a different '
+                            + ', '.join(changed or ['(same MailboxSet object)']),
+                            {'check': 'C08', 'backend': 'dict', 'slot': slot,
+                             'name_hex': name.hex(), 'abstract': show(st['name'])},
+                            f'dict:{slot}:OtherUserChanged')
+                        dw.baseline = after
+            finally:
+                dw.close()
+    run.notes['dict'] = {'names': len(seen), 'executions': n_exec,
+                         'wall_s': round(time.time() - t0, 1)}
+
+
+# --------------------------------------------------------------------------
+# maildir campaign
+
+
+def summarise(ex: Exec, base: str) -> dict:
+    zs: dict = {}
+    for phase, fn, kind, raw, r, z in ex.touch:
+        if phase != 'login' and z not in ('in', 'tmp'):
+            zs.setdefault(f'{z}:{kind}', raw.replace(base, '<base>'))
+    return {'response': list(ex.cond) if ex.cond else None, 'touched': zs,
+            'user2_changed': ex.other_diff[:4], 'cred_changed': ex.cred_diff[:4],
+            'base_changed': ex.base_diff[:4], 'inbox_lost': ex.inbox_lost[:2],
+            'root_removed': ex.root1_gone}
+
+
+def run_one(run: Run, store: Store, layout: str, variant_b: bool, slot: str,
+            st: dict, cvar: str, name: bytes, acc: dict) -> None:
+    wv = 'B' if variant_b else 'A'
+    ex = execute(store, layout, wv, slot, name)
+    base = ex_base(store, ex)
+    lay = 'pp' if layout == '++' else layout
+    predicted = slot in {str(s) for s in st['bad']}
+    if ex.exc == 'HANG':
+        run.notes.setdefault('hangs', []).append(
+            {'layout': layout, 'slot': slot, 'name': name.hex()})
+        return
+    if ex.exc:
+        run.machinery(f'harness exception in {layout} {slot} {name!r}: {ex.exc}')
+        return
+    escapes, beyond = judge(store, base, ex, slot, st)
+    reached = any(p == 'cmd' for p, *_ in ex.touch)
+    run.count_exec((lay, slot, show(st['name']), cvar, wv),
+                   nontrivial=reached and ex.cond is not None and ex.cond[0] != 'BAD')
+    acc['cond'][(lay, slot, ex.cond[0] if ex.cond else '?')] = \
+        acc['cond'].get((lay, slot, ex.cond[0] if ex.cond else '?'), 0) + 1
+    if escapes:
+        sig = signature(layout, slot, st, beyond)
+        replay = {'check': 'C08', 'backend': 'maildir', 'layout': layout, 'store': wv,
+                  'slot': slot, 'name_hex': name.hex(), 'name': name.decode('latin-1'),
+                  'abstract': show(st['name']), 'variant': cvar,
+                  'model': {'zone': str(st['zone']), 'dev': str(st['dev']),
+                            'bad': sorted(str(s) for s in st['bad']),
+                            'allowed': sorted(str(s) for s in st['allowed'])}}
+        what = (f'maildir/{layout}: user1 sent {slot} with mailbox name {name[:40]!r}'
+                f'{"..." if len(name) > 40 else ""} -> {ex.cond[0] if ex.cond else "?"}; '
+                + '; '.join(v for _az, v in (beyond or escapes)[:4]))
+        counted = run.violation(what, replay, sig)
+        e = acc['escapes'].setdefault(sig, {'count': 0, 'known': not counted, 'examples': []})
+        e['count'] += 1
+        if len(e['examples']) < 2:
+            e['examples'].append({'name': name[:60].decode('latin-1'), 'store': wv,
+                                  **summarise(ex, base)})
+    elif predicted:
+        k = f'{lay}:{slot}:{st["dev"]}'
+        e = acc['not_observed'].setdefault(k, {'count': 0, 'examples': []})
+        e['count'] += 1
+        if len(e['examples']) < 3:
+            e['examples'].append({'name': name[:60].decode('latin-1'),
+                                  'response': list(ex.cond) if ex.cond else None})
+
+
+def ex_base(store: Store, ex: Exec) -> str:
+    return ex.base
+
+
+def select_states(graph, rng, quick: bool, n_random: int) -> list:
+    """states (one per (layout, name)) to execute, grouped by layout"""
+    nodes = sorted(graph.nodes.values(),
+                   key=lambda s: (str(s['layout']), len(s['name']), show(s['name'])))
+    if not quick:
+        return nodes
+    chosen, rest = [], []
+    for s in nodes:
+        if len(s['name']) <= 2 or s['bad'] or len(s['name']) > 4:
+            chosen.append(s)
+        else:
+            rest.append(s)
+    names = sorted({tuple(str(x) for x in s['name']) for s in rest})
+    pick = set(rng.sample(names, min(n_random, len(names))))
+    chosen += [s for s in rest if tuple(str(x) for x in s['name']) in pick]
+    chosen.sort(key=lambda s: (str(s['layout']), len(s['name']), show(s['name'])))
+    return chosen
+
+
+def maildir_campaign(run: Run, store: Store, states: list, rng, quick: bool,
+                     deadline: float) -> None:
+    acc = {'escapes': {}, 'not_observed': {}, 'cond': {}}
+    t0 = time.time()
+    cut = False
+    for st in states:
+        layout = '++' if str(st['layout']) == 'pp' else 'fs'
+        interesting = bool(st['bad'])
+        full = (not quick) or interesting
+        variants = concretise(st['name'], layout, full=full)
+        if quick and not interesting:
+            variants = variants[:1]
+        for slot in SLOTS:
+            vs = variants if slot in PATH_SLOTS else variants[:1]
+            if quick and not interesting and slot not in PATH_SLOTS and len(st['name']) > 1 \
+                    and rng.random() < 0.5:
+                continue
+            for cvar, name in vs:
+                run_one(run, store, layout, False, slot, st, cvar, name, acc)
+                # the user's root as the target of DELETE / RENAME: also on a store
+                # where user1 holds no mailbox but INBOX (nothing stops the walk)
+                if str(st['zone']) == 'root' and slot in ('DELETE', 'RENAMEfrom') \
+                        and cvar in ('exist', 'fresh'):
+                    run_one(run, store, layout, True, slot, st, cvar, name, acc)
+        if time.time() > deadline:
+            cut = True
+            break
+    run.notes['maildir'] = {
+        'states_executed': len(states), 'cut_by_deadline': cut,
+        'wall_s': round(time.time() - t0, 1),
+        'responses': {f'{k[0]}:{k[1]}:{k[2]}': v for k, v in sorted(acc['cond'].items())},
+    }
+    run.notes['escapes'] = acc['escapes']
+    run.notes['model_escape_not_observed'] = acc['not_observed']
+
+
+# --------------------------------------------------------------------------
+
+
+def _initial_counterexample(out: str) -> str | None:
+    i = out.find('is violated by the initial state')
+    if i < 0:
+        return None
+    return ' '.join(out[i:i + 600].split('\n')[1:8])
+
+
+def main(tier: str) -> int:
+    run = Run('C08', tier)
+    rng = random.Random(run.seed)
+    quick = tier == 'quick'
+    run.cov['rule'] = (
+        'executions = one IMAP command of user1 carrying one concretised name of the '
+        'TLC-enumerated name set in one mailbox-argument slot, on a two-user maildir '
+        'store (both layouts) with the filesystem API recorded, or on the dict backend '
+        'followed by a dump of user2; non-trivial = the command was not refused by the '
+        'parser and made at least one filesystem call (maildir) / was answered OK or NO '
+        '(dict); distinct = distinct (layout, slot, abstract name, concretisation)')
+    run.assumptions += [
+        'the harness process is the server process: every filesystem access of pymap goes '
+        'through os.*, builtins.open, shutil or tempfile of this interpreter (wrapped)',
+        'no symbolic links inside the store (IMAP offers no way to create one)',
+        'kernel path resolution as modelled: "", "." stay, ".." goes up; the model assumes '
+        'every named directory exists (worst case), the run uses the real kernel',
+        'temporary files of the control-file writer go to a scratch temp directory '
+        '(tempfile.tempdir redirected); zone "tmp" is a C15 matter, not judged here',
+        'the literal name INBOX is outside the abstract alphabet (special-cased by pymap '
+        'before the layout is consulted)',
+        'user names / mailbox_path of the users are ordinary (user1, user2)']
+
+    # 1. the model
+    try:
+        graph, res = tlc.dump_graph('WirePath.tla', 'WirePath_asis.cfg', workers=16)
+    except tlc.TLCError as exc:
+        run.machinery(str(exc))
+        return run.finish()
+    run.add_model(res, 'WirePath_asis.cfg')
+    if not res.ok:
+        run.machinery(f'WirePath_asis.cfg failed: {res.violated or res.error}')
+        return run.finish()
+    ideal = tlc.run_tlc('WirePath.tla', 'WirePath_ideal.cfg', workers=16)
+    run.add_model(ideal, 'WirePath_ideal.cfg')
+    if ideal.ok:
+        run.notes['ideal'] = 'Confined holds without deviations'
+    elif ideal.violated == ['Confined']:
+        run.notes['ideal'] = ('Confined fails without deviations (expected while the layouts '
+                              'join name parts unchecked): '
+                              + (_initial_counterexample(ideal.output) or ''))
+    else:
+        run.machinery(f'WirePath_ideal.cfg: {ideal.violated or ideal.error}')
+        return run.finish()
+    for cfg, expect_ok in (('WirePathUsers_ideal.cfg', True), ('WirePathUsers_shared.cfg', False)):
+        r = tlc.run_tlc('WirePathUsers.tla', cfg, workers=16)
+        run.add_model(r, cfg)
+        if expect_ok and not r.ok:
+            run.machinery(f'{cfg} failed: {r.violated or r.error}')
+            return run.finish()
+        if not expect_ok and r.violated != ['Isolation']:
+            run.machinery(f'{cfg}: the shared-store deviation is not rejected by Isolation '
+                          f'({r.violated or r.error})')
+            return run.finish()
+    states = select_states(graph, rng, quick, n_random=12)
+    if not quick:
+        for cfg in ('WirePath_asis6.cfg',):
+            try:
+                g6, r6 = tlc.dump_graph('WirePath.tla', cfg, workers=16, timeout=1500)
+            except tlc.TLCError as exc:
+                run.machinery(str(exc))
+                return run.finish()
+            run.add_model(r6, cfg)
+            if not r6.ok:
+                run.machinery(f'{cfg} failed: {r6.violated or r6.error}')
+                return run.finish()
+            have = {(str(s['layout']), tuple(s['name'])) for s in states}
+            deep = [s for s in g6.nodes.values()
+                    if (str(s['layout']), tuple(s['name'])) not in have
+                    and s['bad'] and not any(str(x) in ('NUL', 'U') for x in s['name'])]
+            deep.sort(key=lambda s: (str(s['layout']), len(s['name']), show(s['name'])))
+            run.notes['deep_bad_names_len5_6'] = len(deep)
+            states += rng.sample(deep, min(400, len(deep)))
+            states.sort(key=lambda s: (str(s['layout']), len(s['name']), show(s['name'])))
+        r7 = tlc.run_tlc('WirePath.tla', 'WirePath_asis7.cfg', workers=16, timeout=1500)
+        run.add_model(r7, 'WirePath_asis7.cfg')
+        if not r7.ok:
+            run.machinery(f'WirePath_asis7.cfg failed: {r7.violated or r7.error}')
+            return run.finish()
+
+    # 2. maildir: every selected state in every slot
+    store = Store()
+    try:
+        maildir_campaign(run, store, states, rng, quick,
+                         deadline=run.t0 + (150 if quick else 1500))
+        selftest(run, store, graph)
+    finally:
+        store.close()
+
+    # 3. dict
+    dstates = [s for s in states if str(s['layout']) == 'fs']
+    if quick:
+        dstates = [s for s in dstates if len(s['name']) <= 2 or s['bad']][:60]
+    dict_campaign(run, dstates, quick)
+
+    run.cov['exhaustive'] = not quick
+    run.notes['exhaustive_scope'] = (
+        'model: every name over {a . / U NUL} up to length 4 (quick) / 7 (thorough) x both '
+        'layouts x 16 slots; executed: thorough = every name up to length 4 + the DeepNames '
+        '+ a seeded sample of escaping names of length 5-6, in all 16 slots, both layouts, '
+        'all concretisations; quick = names up to length 2, every escaping name, the '
+        'DeepNames and a seeded sample of the rest')
+    for sig, e in list(run.notes.get('escapes', {}).items())[:3]:
+        run.sample({'signature': sig, **(e['examples'][0] if e['examples'] else {})})
+    return run.finish()
+
+
+def selftest(run: Run, store: Store, graph) -> None:
+    """(b) of HOWTO 'proving the binding works': corrupt the expected value on
+    the spec side (pretend TLC said the name is confined) and require the
+    judgement to come out as a signature no known finding can excuse."""
+    st = next((s for s in graph.nodes.values()
+               if str(s['layout']) == 'fs' and show(s['name']) == '..'), None)
+    if st is None:
+        run.machinery('selftest: state fs ".." not in the graph')
+        return
+    ex = execute(store, 'fs', 'A', 'STATUS', b'..')
+    escapes, beyond = judge(store, ex.base, ex, 'STATUS', st)
+    fake = dict(st)
+    fake['bad'] = frozenset()
+    esc2, beyond2 = judge(store, ex.base, ex, 'STATUS', fake)
+    sig2 = signature('fs', 'STATUS', fake, beyond2) if esc2 else None
+    fake3 = dict(st)
+    fake3['allowed'] = frozenset({'in', 'root'})
+    esc3, beyond3 = judge(store, ex.base, ex, 'STATUS', fake3)
+    sig3 = signature('fs', 'STATUS', fake3, beyond3) if esc3 else None
+    ok = bool(escapes) == bool(st['bad']) and (
+        not escapes or (sig2 is not None and sig2 not in run.known.open
+                        and sig3 is not None and sig3 not in run.known.open and bool(beyond3)))
+    run.notes['selftest'] = {'observed_escape': bool(escapes), 'corrupted_bad_sig': sig2,
+                             'corrupted_allowed_sig': sig3, 'ok': ok}
+    if not ok:
+        run.machinery(f'selftest: a corrupted model value was not detected ({sig2}, {sig3})')
+
+
+def replay(path: str) -> int:
+    import json
+    d = json.load(open(path))
+    rep = d.get('replay', d)
+    name = bytes.fromhex(rep['name_hex'])
+    if rep.get('backend') == 'dict':
+        dw = DictWorld()
+        try:
+            cond, resp = dw.run_slot(rep['slot'], name)
+            after = dw.dump()
+            changed = [DUMP[i].decode() for i in range(len(DUMP)) if after[i] != dw.baseline[i]]
+            print('response', cond)
+            print('user2 dump changed in', changed)
+            return 1 if changed else 0
+        finally:
+            dw.close()
+    store = Store()
+    try:
+        ex = execute(store, rep['layout'], rep.get('store', 'A'), rep['slot'], name)
+        print(f'{rep["layout"]} {rep["slot"]} {name!r} -> {ex.cond}')
+        bad = 0
+        for phase, fn, kind, raw, r, z in ex.touch:
+            if phase != 'login' and z not in ('in', 'tmp') and not (z == 'root' and kind != 'destroy'):
+                print(f'  {phase} {fn} [{kind}] {raw.replace(ex.base, "<base>")} -> {z}')
+                bad += 1
+        for k in ('other_diff', 'cred_diff', 'base_diff', 'inbox_lost', 'refused'):
+            v = getattr(ex, k)
+            if v:
+                print(f'  {k}: {v[:8]}')
+                bad += 1
+        if ex.root1_gone:
+            print('  user1 root removed')
+            bad += 1
+        return 1 if bad else 0
+    finally:
+        store.close()
